@@ -374,7 +374,7 @@ impl<'a, F: IVP> SolOut for DefaultSolOut<'a, F> {
             
             let mut i = self.next_idx;
             
-            if (xold - *x).abs() <= self.tol {
+            if xold == *x {
                 // Initial callback (xold == x): output at matching t_eval points
                 while i < t_eval.len() && (t_eval[i] - *x).abs() <= self.tol {
                     self.t.push(t_eval[i]);
@@ -419,14 +419,16 @@ impl<'a, F: IVP> SolOut for DefaultSolOut<'a, F> {
             if let Some(h0) = self.first_step {
                 // First-step enforcement: skip intermediate outputs until we reach/pass
                 // the target, then interpolate to the exact point.
-                if !self.first_output_done && (xold - *x).abs() > self.tol {
+                if !self.first_output_done && xold != *x {
                     let direction = (*x - xold).signum();
                     // For backward integration (direction < 0), target is x0 - h0
                     // h0 carries the sign of the integration direction (or is auto-corrected by
                     // the solvers), so only its magnitude may be applied along `direction`
                     let target = self.x0 + direction * h0.abs();
                     
-                    if direction * (*x - target) >= -self.tol {
+                    // (a few ulps of slack: target and x come from different roundings of x0 + h0)
+                    let ulps = 4.0 * Float::EPSILON * x.abs().max(self.x0.abs()).max(h0.abs());
+                    if direction * (*x - target) >= -ulps {
                         // We've reached or passed the target point
                         if let Some(interp) = interpolant {
                             let mut yi = vec![0.0; y.len()];
@@ -437,7 +439,7 @@ impl<'a, F: IVP> SolOut for DefaultSolOut<'a, F> {
                         }
                         
                         // Also output current endpoint if distinct from target
-                        if (*x - target).abs() > self.tol {
+                        if (*x - target).abs() > ulps {
                             self.t.push(*x);
                             self.y.push(y.to_vec());
                         }
@@ -450,7 +452,7 @@ impl<'a, F: IVP> SolOut for DefaultSolOut<'a, F> {
             }
             
             // Normal output: record endpoint (avoid duplicates)
-            if self.t.is_empty() || (self.t.last().unwrap() - *x).abs() > self.tol {
+            if self.t.is_empty() || *self.t.last().unwrap() != *x {
                 self.t.push(*x);
                 self.y.push(y.to_vec());
             }
